@@ -148,6 +148,17 @@ PROPS["C01"] = {
     "assumptions": [],
 }
 
+PROPS["C02"] = {
+    "module": "Matreex.Props.C02", "harness": "C02",
+    "level_text": "PARTIAL. Machine-checked Lean 4 theorems over a fault-schedule model (world = callback counter, matrix, drop log; an ARBITRARY schedule phi : Nat -> Bool of panicking callbacks): for resize (repaired order, incl. the unwinding guard), clear, every in-place per-element operation, overwrite and consuming operations the survivor is coherent for every schedule, truncate drops each removed element at most once and never a survivor; plus the machine-checked refutation of the pre-fix resize order. "
+                  "Together with C01.run_inv_from any history may follow on the survivors. The model is tied to the implementation by single-fault enumeration (every operation kind, every k) comparing the survivor's shape and length for the modelled operations and evaluating the property's oracle (coherence, usability, no double drop) for all operations. "
+                  "Not exhibited by the model: the unwinder itself (landing pads, drop flags, drop-and-replace), Vec's internal panic guards (SetLenOnDrop, in-place collect), rayon's panic propagation — these are trusted-base items validated by the injection runs; multi-fault schedules are proved in the model but only single faults are injected.",
+    "technique": "Lean 4 theorems quantified over arbitrary fault schedules about an effect model of Vec::truncate / resize_with unwinding and the operations built on them + exhaustive single-fault injection (k-th callback panics) on the real crate for every operation kind",
+    "trusted": ["unwinding semantics of Vec::truncate (length set first, tail dropped, continues after a panicking drop, second panic aborts), Vec::resize_with (length = completed pushes), drop-and-replace assignment, slice clone_from_slice (Model/Effects.lean)",
+                "operations are grouped into classes (forEach / overwrite / consuming) by hand; the class of each real operation is validated by the injection runs"],
+    "assumptions": ["one fault per run in the injection (the theorems hold for every schedule)"],
+}
+
 LEVEL_TEXT = ("Machine-checked Lean 4 theorems, for all inputs the property quantifies over, about a model whose integer core is "
               "regenerated from /repo/src on every run and whose remaining structure is tied to the implementation by a differential "
               "correspondence run (same operation lines on crate and model) plus the property's own oracle on the implementation.")
